@@ -115,6 +115,7 @@ func (fr *Frame) callWith(st *State, c *ssa.CallCommon, args []Val, site ssa.Ins
 			if (ca.Ord == 0 || ca.Ord == ord) && calleeMatches(key, ca.Callee) {
 				env := fr.specEnv(st, nil)
 				env.block = site.Block()
+				env.localsFirst = true
 				for i, a := range args {
 					env.vars[fmt.Sprintf("$arg%d", i)] = a
 				}
@@ -877,6 +878,7 @@ func (fr *Frame) loopHead(st *State, li *loopInfo) {
 	// 1. invariants hold on entry
 	env := fr.specEnv(st, nil)
 	env.block = li.header
+	env.localsFirst = true
 	for _, inv := range ls.Invariants {
 		name := fmt.Sprintf("%s/loop%d/invariant[%s]/init", vc.fnKey, li.ord, inv.Label)
 		vc.oblige(st, name, "invariant-init", env.evalBool(inv.Expr), inv.Text)
@@ -963,6 +965,7 @@ func (fr *Frame) loopHead(st *State, li *loopInfo) {
 	}
 	env2 := fr.specEnv(st, nil)
 	env2.block = li.header
+	env2.localsFirst = true
 	for _, inv := range ls.Invariants {
 		vc.assume(st, env2.evalBool(inv.Expr))
 	}
@@ -979,6 +982,7 @@ func (fr *Frame) loopBack(st *State, li *loopInfo) {
 	ls := fr.loopSpec(li)
 	env := fr.specEnv(st, nil)
 	env.block = li.header
+	env.localsFirst = true
 	for _, inv := range ls.Invariants {
 		name := fmt.Sprintf("%s/loop%d/invariant[%s]/preserve", vc.fnKey, li.ord, inv.Label)
 		vc.oblige(st, name, "invariant-preserve", env.evalBool(inv.Expr), inv.Text)
@@ -1052,7 +1056,7 @@ func (fr *Frame) lookupLocal(st *State, name string, at *ssa.BasicBlock) (Val, b
 				if id, ok := x.Expr.(interface{ String() string }); ok {
 					_ = id
 				}
-				if obj := x.Object(); obj != nil && obj.Name() == name && !seen[x.X] {
+				if obj := x.Object(); obj != nil && x.IsAddr && obj.Name() == name && !seen[x.X] {
 					if _, isVar := obj.(*types.Var); isVar {
 						seen[x.X] = true
 						cands = append(cands, cand{x.X, x.IsAddr})
